@@ -54,6 +54,7 @@ struct C19World: World {
     if (static_cast<int>(p.cfg.size()) < 1 + f->cfg_len()) return;
     SimRandom rnd(p.run_seed); RandomScope rs(rnd);
     const AllocMark baseline; const size_t items_baseline = item_state().live.size();
+    const long long tracked_baseline = g_tracked_global_live;
     {
       std::vector<Obj> pool(8);
       int idx = 0;
@@ -67,30 +68,32 @@ struct C19World: World {
         ctx.begin_step(idx++, s.kind);
         Obj& a = pool[static_cast<size_t>(s.a) % pool.size()]; Obj& b = pool[static_cast<size_t>(s.b) % pool.size()];
         const bool a_ok = a.sk && !a.moved_from, b_ok = b.sk && !b.moved_from;
+        // blocks taken from ::operator new inside lifecycle calls are tracked; the observation strings the harness keeps are taken outside the scope
+        #define TRACKED(stmt) do { TrackGlobalNew tg_; stmt; } while (0)
         switch (s.kind) {
-          case L_NEW: a.sk.reset(f->make(fcfg)); a.moved_from = false; a.expect = a.sk->obs(false); break;
-          case L_FEED: if (a_ok) { a.sk->feed(s.b, s.c / 64, s.c % 64); a.expect = a.sk->obs(false); } break;
-          case L_COPY: if (b_ok && &a != &b) { a.sk.reset(b.sk->clone()); a.moved_from = false; a.expect = a.sk->obs(false);
+          case L_NEW: TRACKED(a.sk.reset(f->make(fcfg))); a.moved_from = false; a.expect = a.sk->obs(false); break;
+          case L_FEED: if (a_ok) { TRACKED(a.sk->feed(s.b, s.c / 64, s.c % 64)); a.expect = a.sk->obs(false); } break;
+          case L_COPY: if (b_ok && &a != &b) { TRACKED(a.sk.reset(b.sk->clone())); a.moved_from = false; a.expect = a.sk->obs(false);
               ctx.require(a.expect == b.expect, fp(p, "copy-differs-from-source").c_str(), a.expect.substr(0, 200) + " vs " + b.expect.substr(0, 200)); ctx.nontrivial = true; } break;
-          case L_MOVE: if (b_ok && &a != &b) { const std::string before = b.expect; a.sk.reset(b.sk->move_out()); a.moved_from = false; b.moved_from = true; a.expect = a.sk->obs(false);
+          case L_MOVE: if (b_ok && &a != &b) { const std::string before = b.expect; TRACKED(a.sk.reset(b.sk->move_out())); a.moved_from = false; b.moved_from = true; a.expect = a.sk->obs(false);
               ctx.require(a.expect == before, fp(p, "move-did-not-transfer-state").c_str(), a.expect.substr(0, 200) + " vs " + before.substr(0, 200)); ctx.nontrivial = true; } break;
-          case L_ASSIGN: if (a.sk && b_ok && &a != &b) { a.sk->copy_assign(*b.sk); a.moved_from = false; a.expect = a.sk->obs(false);
+          case L_ASSIGN: if (a.sk && b_ok && &a != &b) { TRACKED(a.sk->copy_assign(*b.sk)); a.moved_from = false; a.expect = a.sk->obs(false);
               ctx.require(a.expect == b.expect, fp(p, "copy-assignment-differs-from-source").c_str(), a.expect.substr(0, 200) + " vs " + b.expect.substr(0, 200)); ctx.nontrivial = true; } break;
-          case L_MOVE_ASSIGN: if (a.sk && b_ok && &a != &b) { const std::string before = b.expect; a.sk->move_assign(*b.sk); a.moved_from = false; b.moved_from = true; a.expect = a.sk->obs(false);
+          case L_MOVE_ASSIGN: if (a.sk && b_ok && &a != &b) { const std::string before = b.expect; TRACKED(a.sk->move_assign(*b.sk)); a.moved_from = false; b.moved_from = true; a.expect = a.sk->obs(false);
               ctx.require(a.expect == before, fp(p, "move-assignment-did-not-transfer-state").c_str(), a.expect.substr(0, 200) + " vs " + before.substr(0, 200)); ctx.nontrivial = true; } break;
-          case L_SELF_ASSIGN: if (a_ok) { a.sk->copy_assign(*a.sk); const std::string now = a.sk->obs(false); ctx.require(now == a.expect, fp(p, "self-assignment-changed-object").c_str(), now.substr(0, 200) + " vs " + a.expect.substr(0, 200)); ctx.probe("self_assign"); ctx.nontrivial = true; } break;
-          case L_SELF_MOVE_ASSIGN: if (a_ok) { a.sk->move_assign(*a.sk); a.moved_from = true; ctx.probe("self_move_assign"); ctx.nontrivial = true; } break;   // valid-but-unspecified afterwards: only assignment and destruction follow
-          case L_CHAIN: { Obj& c = pool[static_cast<size_t>(s.c) % pool.size()]; if (a.sk && b.sk && c.sk && !c.moved_from && &a != &b && &b != &c && &a != &c) { b.sk->copy_assign(*c.sk); a.sk->copy_assign(*b.sk); a.moved_from = b.moved_from = false; a.expect = a.sk->obs(false); b.expect = b.sk->obs(false);
+          case L_SELF_ASSIGN: if (a_ok) { TRACKED(a.sk->copy_assign(*a.sk)); const std::string now = a.sk->obs(false); ctx.require(now == a.expect, fp(p, "self-assignment-changed-object").c_str(), now.substr(0, 200) + " vs " + a.expect.substr(0, 200)); ctx.probe("self_assign"); ctx.nontrivial = true; } break;
+          case L_SELF_MOVE_ASSIGN: if (a_ok) { TRACKED(a.sk->move_assign(*a.sk)); a.moved_from = true; ctx.probe("self_move_assign"); ctx.nontrivial = true; } break;   // valid-but-unspecified afterwards: only assignment and destruction follow
+          case L_CHAIN: { Obj& c = pool[static_cast<size_t>(s.c) % pool.size()]; if (a.sk && b.sk && c.sk && !c.moved_from && &a != &b && &b != &c && &a != &c) { TRACKED(b.sk->copy_assign(*c.sk)); TRACKED(a.sk->copy_assign(*b.sk)); a.moved_from = b.moved_from = false; a.expect = a.sk->obs(false); b.expect = b.sk->obs(false);
               ctx.require(a.expect == c.expect && b.expect == c.expect, fp(p, "assignment-chain-differs").c_str(), ""); ctx.nontrivial = true; } break; }
-          case L_MERGE: if (a_ok && b_ok && &a != &b) { a.sk->merge(*b.sk); a.expect = a.sk->obs(false); ctx.nontrivial = true; } break;
-          case L_MERGE_MOVE: if (a_ok && b_ok && &a != &b) { a.sk->merge_move(*b.sk); b.moved_from = true; a.expect = a.sk->obs(false); ctx.nontrivial = true; } break;
+          case L_MERGE: if (a_ok && b_ok && &a != &b) { TRACKED(a.sk->merge(*b.sk)); a.expect = a.sk->obs(false); ctx.nontrivial = true; } break;
+          case L_MERGE_MOVE: if (a_ok && b_ok && &a != &b) { TRACKED(a.sk->merge_move(*b.sk)); b.moved_from = true; a.expect = a.sk->obs(false); ctx.nontrivial = true; } break;
           case L_QUERY: if (a_ok) { const std::string now = a.sk->obs(false); ctx.require(now == a.expect, fp(p, "query-changed-observation").c_str(), now.substr(0, 200) + " vs " + a.expect.substr(0, 200)); } break;
           case L_SERDE: if (b_ok && &a != &b) { int v = static_cast<int>(s.c) % f->n_variants();
               if (std::string(f->name()) == "theta" && v >= 3) v -= 3;   // wrap() takes no allocator: a wrapped theta sketch is not an allocator-aware object
               if (!b.sk->variant_ok(v)) break; fam::Bytes img = b.sk->ser(v, 0); b.expect = b.sk->obs(false);
-              a.sk.reset(b.sk->de(v, img.data(), img.size())); a.moved_from = false; a.expect = a.sk->obs(false); ctx.nontrivial = true; } break;
-          case L_RESET: if (a_ok) { a.sk->reset(); a.expect = a.sk->obs(false); } break;
-          case L_DESTROY: a.sk.reset(); a.moved_from = false; break;
+              TRACKED(a.sk.reset(b.sk->de(v, img.data(), img.size()))); a.moved_from = false; a.expect = a.sk->obs(false); ctx.nontrivial = true; } break;
+          case L_RESET: if (a_ok) { TRACKED(a.sk->reset()); a.expect = a.sk->obs(false); } break;
+          case L_DESTROY: TRACKED(a.sk.reset()); a.moved_from = false; break;
           default: break;
         }
         seams(lnames[s.kind]);
@@ -108,6 +111,8 @@ struct C19World: World {
     }
     if (!baseline.balanced()) ctx.fail(fp(p, "memory-left-allocated-after-last-object-died"), baseline.diff());
     if (item_state().live.size() != items_baseline) ctx.fail(fp(p, "items-left-alive-after-last-object-died"), std::to_string(item_state().live.size() - items_baseline) + " item(s)");
+    // nothing persists through a path that bypasses the allocator either (string buffers, hash-seed vectors, std::function state)
+    if (g_tracked_global_live != tracked_baseline) ctx.fail(fp(p, "global-new-blocks-left-after-last-object-died"), std::to_string(g_tracked_global_live - tracked_baseline) + " block(s) obtained through ::operator new inside lifecycle calls");
     ctx.probe("pool_emptied_and_balanced");
   }
 };
